@@ -19,6 +19,8 @@ func checkC06(c *Ctx, r *Report) {
 	c06R1(c, r)
 	c06R2(c, r)
 	c06R3(c, r)
+	originLeavesOwner(c, r, "C06.R3.origin-leaves-owner")
+	includeTailOptional(c, r, "C06.R4.include-tail-optional")
 	c06R4(c, r)
 	c06TTLUnits(c, r)
 	c06GenerateRange(c, r)
